@@ -1000,6 +1000,19 @@ pub fn worker_c14(ctx: &WorkerCtx) -> WorkerOut {
                     jobs.push(j);
                 }
             }
+            // a length bound equal to the number of events the filtered trace must have: the run must reach it
+            {
+                let n = sp.traces[t as usize].len();
+                for (oc, on, ml) in [(true, true, n), (true, false, 2 * n), (false, true, 2 * n)] {
+                    let mut j = Job::new(t, d, vec![], vec![]);
+                    j.only_client = oc;
+                    j.only_net = on;
+                    j.max_len = ml;
+                    j.max_iter = 0;
+                    j.cont = false;
+                    jobs.push(j);
+                }
+            }
             for on in [false, true] {
                 let mut j = Job::new(t, d, vec![], vec![]);
                 j.api = 1;
